@@ -29,7 +29,7 @@ from typing import Any, Optional
 
 HERE = Path(__file__).resolve().parent
 
-K_D, K_E, K_N, K_A = 16.0, 64.0, 16.0, 4.0
+K_D, K_E, K_N, K_A = 64.0, 64.0, 64.0, 4.0
 
 HALF_POOL = [0.5, -0.5, 1.5, -1.5, 2.5, -2.5, 3.5, -3.5, 0.0, 1.0, -1.0, 2.0, -2.0, 4.5, -4.5]
 MAG_POOL = [0.0, 1.0, -1.0, 1e-3, -1e-3, 1e-6, -1e-6, 20.0, -20.0, 100.0, -100.0, 1e4, -1e4, 0.25, -7.0,
@@ -135,10 +135,15 @@ def _keep_structure(arr, own):
         return arr
     if own.shape[-1] >= 2 and np.issubdtype(own.dtype, np.number) and not np.iscomplexobj(own):
         d = np.diff(own.astype(np.float64), axis=-1)
+        strict = bool((d != 0).all())
         if (d >= 0).all() and (d > 0).any():
             arr = np.sort(arr, axis=-1)
         elif (d <= 0).all() and (d < 0).any():
             arr = np.sort(arr, axis=-1)[..., ::-1].copy()
+        else:
+            strict = False
+        if strict and (np.diff(arr.astype(np.float64), axis=-1) == 0).any():
+            return own.astype(arr.dtype)      # strictly monotone tables (knots, bin edges) stay strictly monotone
     if own.ndim >= 2 and own.shape[-1] == own.shape[-2] and own.shape[-1] >= 2 and (own == 0).any():
         if (np.triu(own) == own).all():
             arr = np.triu(arr)
@@ -194,7 +199,7 @@ def _fill_int(shape, dtype, kind: str, rng: Rng, own=None):
                     for _ in range(n)]
         else:
             return own.astype(dtype)
-        return np.asarray(vals, dtype=np.int64).reshape(own.shape).astype(dtype)
+        return _keep_structure(np.asarray(vals, dtype=np.int64).reshape(own.shape).astype(dtype), own)
     # no values given: the project draws integers in [0, 5)
     if kind == "own":
         vals = [rng.below(5) for _ in range(n)]
@@ -221,6 +226,14 @@ def _fill_bool(shape, kind: str, rng: Rng, own=None):
 
 # (component, input index) -> "sorted": inputs that must be ascending although the testcase only gives shapes
 DOMAIN = {("searchsorted", 0): "sorted", ("digitize", 1): "sorted", ("interp", 1): "sorted"}
+# components whose callable is only defined for positive arguments (special functions): draws are folded
+# to |x| + 2^-10; components with data-dependent trip counts only get bounded-magnitude draws;
+# components whose outputs are an unordered set (roots) are compared after sorting
+POSITIVE = {"igamma", "igammac", "igamma_grad_a", "random_gamma_grad", "betainc", "digamma", "polygamma", "zeta",
+            "bessel_i0e", "bessel_i1e"}
+BOUNDED_KINDS = {"while_loop": ["own", "half", "unit"], "fori_loop": ["own", "half", "unit"],
+                 "arange": ["own", "half", "unit"], "linspace": ["own", "half", "unit"]}
+UNORDERED_OUTPUT = {"roots"}
 
 
 def build_inputs(tp: dict, kind: str, seed: int, f64: bool, symval: int = 2):
@@ -291,6 +304,9 @@ def build_inputs(tp: dict, kind: str, seed: int, f64: bool, symval: int = 2):
             spec_dt = np.dtype(np.float64) if (f64 and np.issubdtype(a.dtype, np.floating)) else a.dtype
             specs.append(jax.ShapeDtypeStruct(a.shape, spec_dt))
             xs.append(fill(a.shape, dt, a.astype(dt)))
+    if tp.get("component") in POSITIVE and kind != "own":
+        xs = [(np.abs(x) + np.asarray(2.0 ** -10, dtype=x.dtype)).astype(x.dtype)
+              if np.issubdtype(x.dtype, np.floating) else x for x in xs]
     return specs, xs
 
 
@@ -310,7 +326,7 @@ def _is_float(a) -> bool:
     return np.issubdtype(a.dtype, np.floating) or a.dtype.name in ("bfloat16", "float16")
 
 
-def compare(ort_out, j_main, j_ref, f64: bool, j_pert=None) -> dict:
+def compare(ort_out, j_main, j_ref, f64: bool, j_pert=None, declared=None, unordered=False) -> dict:
     """j_main: eager JAX in the variant's precision; j_ref: eager JAX in the other precision
     (f64 for an f32 variant, f32 for an f64 variant) or None; j_pert: eager JAX (variant precision)
     on the inputs perturbed by one unit round-off (the forward error a backward-stable evaluation
@@ -322,6 +338,17 @@ def compare(ort_out, j_main, j_ref, f64: bool, j_pert=None) -> dict:
     scale = (float(np.finfo(np.float64).eps) / float(np.finfo(np.float32).eps)) if f64 else 1.0
     skipped_nan = 0
     worst = 0.0
+    used_declared = False
+
+    def _sorted(a):
+        a = np.asarray(a)
+        if a.ndim == 0:
+            return a
+        if np.iscomplexobj(a):
+            idx = np.lexsort((np.imag(a), np.real(a)), axis=-1)
+            return np.take_along_axis(a, idx, axis=-1)
+        return np.sort(a, axis=-1)
+
     for k, (o, e) in enumerate(zip(ort_out, j_main)):
         o, e = np.asarray(o), np.asarray(e)
         if np.issubdtype(e.dtype, np.complexfloating) and not np.issubdtype(o.dtype, np.complexfloating):
@@ -329,6 +356,8 @@ def compare(ort_out, j_main, j_ref, f64: bool, j_pert=None) -> dict:
                 o = o[..., 0] + 1j * o[..., 1]
         if o.shape != e.shape:
             return {"status": "mismatch", "why": f"output {k}: shape ORT {o.shape} vs JAX {e.shape}", "output": k}
+        if unordered:
+            o, e = _sorted(o), _sorted(e)
         if np.issubdtype(e.dtype, np.complexfloating) or np.issubdtype(o.dtype, np.complexfloating):
             parts = [(np.real(o), np.real(e)), (np.imag(o), np.imag(e))]
             ref = None if j_ref is None else np.asarray(j_ref[k])
@@ -375,6 +404,12 @@ def compare(ort_out, j_main, j_ref, f64: bool, j_pert=None) -> dict:
             rms_d = float(np.sqrt(np.mean(d ** 2))) if d.size else 0.0
             rms_r = float(np.sqrt(np.mean(refmag ** 2))) if d.size else 0.0
             tol = K_D * d + K_E * eps * refmag + K_N * (rms_d + eps * rms_r) + K_A * eps
+            if declared is not None and not d.any():
+                # JAX's own evaluations carry no information (the callable computes in one fixed precision
+                # and does not react to a 1-ulp input perturbation): fall back to the tolerance the project
+                # declares for this testcase
+                tol = np.maximum(tol, declared[1] + declared[0] * np.abs(ee))
+                used_declared = True
             nan_e = np.isnan(ee)
             skipped_nan += int(nan_e.sum())
             inf_e = np.isinf(ee)
@@ -383,6 +418,10 @@ def compare(ort_out, j_main, j_ref, f64: bool, j_pert=None) -> dict:
                 skipped_nan += int(overflowed.sum())       # JAX's own f32 evaluation overflowed
                 inf_e = inf_e & ~overflowed
                 nan_e = nan_e | overflowed
+            singular = inf_e & np.isnan(oo)      # a pole / boundary: JAX says ±inf, ORT says NaN — both "undefined"
+            skipped_nan += int(singular.sum())
+            inf_e = inf_e & ~singular
+            nan_e = nan_e | singular
             fin = ~(nan_e | inf_e)
             bad = np.zeros(ee.shape, dtype=bool)
             with np.errstate(all="ignore"):
@@ -403,7 +442,8 @@ def compare(ort_out, j_main, j_ref, f64: bool, j_pert=None) -> dict:
                 r = np.where(fin, np.abs(oo - ee) / np.maximum(tol, 1e-300), 0.0)
                 if r.size:
                     worst = max(worst, float(np.nanmax(r)))
-    return {"status": "ok", "skipped_nan_elements": skipped_nan, "worst_ratio": round(worst, 4)}
+    return {"status": "ok", "skipped_nan_elements": skipped_nan, "worst_ratio": round(worst, 4),
+            "declared_tolerance_fallback": used_declared}
 
 
 # --------------------------------------------------------------------------------------- one case
@@ -537,6 +577,13 @@ def run_case(index: int, seed: int, kinds: list[str], symval: int = 2) -> dict:
     params = tp.get("input_params", {})
     nchw_out = tp.get("outputs_as_nchw")
     worst = "ok"
+    comp = tp.get("component")
+    if comp in BOUNDED_KINDS:
+        kinds = [k for k in kinds if k in BOUNDED_KINDS[comp]]
+    if f64:
+        declared = (tp.get("rtol_f64", tp.get("rtol", 1e-7)), tp.get("atol_f64", tp.get("atol", 1e-7)))
+    else:
+        declared = (tp.get("rtol_f32", tp.get("rtol", 1e-5)), tp.get("atol_f32", tp.get("atol", 1e-5)))
     for kind in kinds:
         d: dict[str, Any] = {"kind": kind}
         try:
@@ -585,7 +632,7 @@ def run_case(index: int, seed: int, kinds: list[str], symval: int = 2) -> dict:
             out = [np.transpose(o, [0, 2, 3, 1]) if (i in nchw_out and np.asarray(o).ndim == 4) else o
                    for i, o in enumerate(out)]
         try:
-            c = compare(out, j_main, j_ref, f64, j_pert)
+            c = compare(out, j_main, j_ref, f64, j_pert, declared=declared, unordered=comp in UNORDERED_OUTPUT)
         except Exception as e:
             c = {"status": "compare_error", "error": f"{type(e).__name__}: {e}"[:200]}
         d.update(c)
